@@ -216,7 +216,8 @@ def rebuildSegs (bs : Bytes) (toks : List String) : Option (List Fit.Raw.Seg × 
 /-- C16 on the implementation, from its itemised answer.
 First half, for EVERY stream: the reported segments continue the stream (`C16_concat`: the bytes the callback
 saw are the stream's bytes at the running offset; their total is at most the returned count, which is at most the
-stream; equal on success) and have the prescribed lengths (`lengthsOK`, the predicate of `C16_lengths`).
+stream; equal on success), have the prescribed lengths (`lengthsOK`, the predicate of `C16_lengths`) and sit where the
+protocol prescribes (`layoutOK` / `layoutClosed`, the predicates of `C16_layout`).
 Second half: whenever the full decoder accepts the stream — every `Decode` succeeds and the sequences it decoded
 cover the stream exactly — the raw decoder accepts it, reports as many sequences and the same ordered series of
 definitions (header byte, architecture, global number, field and developer field definitions) and data messages
@@ -238,6 +239,8 @@ def propRawDec (bs : Bytes) (impl : String) : String :=
           else if rstatus == "ok" && total != n then "fail:count-on-success"
           else if !(chk.all fun c => Fit.FitFormat.slice bs c.1 c.2.length == c.2) then "fail:concat"
           else if !Fit.Raw.lengthsOK rsegs then "fail:lengths"
+          else if !Fit.Raw.layoutOK rsegs then "fail:layout"                         -- `C16_layout`: where each kind of segment sits
+          else if rstatus == "ok" && !Fit.Raw.layoutClosed rsegs then "fail:layout-open-at-end"
           else
             -- second half
             let dtoks := ((d.drop 4).toString.splitOn " ").filter (· ≠ "")
